@@ -274,6 +274,22 @@ def textFormats : List (String × String) :=
 def dispatch (t : String) : Option (String × Option String) :=
   if allowedTypes.contains t then classLoaderMapping.lookup t else none
 
+/-- outcome of the reader selection of `load_catalog(filename, type=t, loader=l)` -/
+inductive LoadSel where
+  | valueError                                          -- unknown `type` and no loader (csep/__init__.py:131-137)
+  | keyError                                            -- unknown `type` WITH a loader: `class_loader_mapping[type]` (:170)
+  | use (cls : String) (reader : Option String)         -- the catalog class and the reader that is called
+deriving DecidableEq, Repr
+
+/-- csep/__init__.py:131-137 (the type check is skipped when a loader is given), :170 (class lookup), :174-175
+    `if loader is None: loader = class_loader_mapping[type]['loader']`: an explicitly passed loader ALWAYS wins, the
+    reader registered for `type` is only the default.  `loader` is the name of the function the caller passed. -/
+def selectLoader (t : String) (loader : Option String) : LoadSel :=
+  if !(allowedTypes.contains t) && loader.isNone then .valueError else
+  match classLoaderMapping.lookup t with
+  | none => .keyError
+  | some (cls, registered) => .use cls (match loader with | some l => some l | none => registered)
+
 /-! ## Specification: what a well-formed record of each format is, and what it must decode to -/
 
 /-- the civil date after y-m-d -/
